@@ -17,15 +17,22 @@ Observed(r) == /\ pc' = r.pc /\ wpc' = r.wpc /\ permH' = r.permH /\ permN' = r.p
 Fresh(P) == /\ chan' = [c \in DOMAIN P.cal |-> "none"] /\ st' = [c \in DOMAIN P.cal |-> "none"]
             /\ fired' = [x \in DOMAIN P.ev |-> FALSE] /\ hist' = <<>>
 
-Load(r) == /\ par' = r.par /\ Observed(r) /\ queue' = <<>> /\ wcur' = "none" /\ Fresh(r.par)
-           /\ r.qlen = 0 /\ r.wpc = "idle" /\ r.permH = 0 /\ r.permN = 0
-           /\ \A c \in DOMAIN r.pc : r.pc[c] = "start" /\ r.res[c] = "none"
+\* what a fresh limiter must look like (conf mode); in obs mode the logged state is loaded as it is
+FreshOK(r) == ~Conf \/ (/\ r.qlen = 0 /\ r.wpc = "idle" /\ r.permH = 0 /\ r.permN = 0
+                        /\ \A c \in DOMAIN r.pc : r.pc[c] = "start" /\ r.res[c] = "none")
+
+Load(r) == /\ par' = r.par /\ Observed(r) /\ queue' = [i \in 1..r.qlen |-> "?"] /\ wcur' = "none" /\ Fresh(r.par)
+           /\ FreshOK(r)
 
 TInit == /\ l = 1 /\ Trace[1].ev = "reset"
          /\ LET r == Trace[1] IN
-              /\ InitFor(r.par)
-              /\ r.qlen = 0 /\ r.wpc = "idle" /\ r.permH = 0 /\ r.permN = 0
-              /\ \A c \in DOMAIN r.pc : r.pc[c] = "start"
+              /\ FreshOK(r)
+              /\ par = r.par /\ pc = r.pc /\ wpc = r.wpc /\ wcur = "none" /\ permH = r.permH /\ permN = r.permN
+              /\ queue = [i \in 1..r.qlen |-> "?"] /\ canc = r.canc /\ first = r.first
+              /\ fired = [x \in DOMAIN r.par.ev |-> FALSE] /\ exec = r.exec /\ done = r.done /\ res = r.res
+              /\ why = r.why /\ exret = r.exret /\ chan = [c \in DOMAIN r.par.cal |-> "none"]
+              /\ st = [c \in DOMAIN r.par.cal |-> "none"]
+              /\ rejected = r.rejected /\ queued = r.queued /\ timeouts = r.timeouts /\ hist = <<>>
 
 ObsStep(r) == /\ r.ev \in {"step", "skip", "blocked"}
               /\ Observed(r)
